@@ -25,7 +25,7 @@ PY
 # SEED_VERIF_SRC: take the harness from a scratch copy of /verif instead (development of a check in a copy)
 rsync -a --exclude bin --exclude .git --exclude replays --exclude seeded --exclude notes "${SEED_VERIF_SRC:-/verif}/" "$W/verif/"
 for id in "$@"; do
-  out=$(VERIF_DIR="$W/verif" VCHECK_OVERLAY="$W/overlay.json" VCHECK_SRC_V2="$W/tree/v2" "$W/verif/vcheck" "$id" --tier "${SEED_TIER:-quick}" 2>&1); rc=$?
+  out=$(VERIF_DIR="$W/verif" VCHECK_OVERLAY="$W/overlay.json" VCHECK_SRC_V2="$W/tree/v2" timeout "${SEED_TIMEOUT:-5400}" "$W/verif/vcheck" "$id" --tier "${SEED_TIER:-quick}" 2>&1); rc=$?
   sigs=$(echo "$out" | grep -E "^\s+signature=" | sed 's/^\s*signature=//' | sort -u | head -6 | tr '\n' ' ')
   case $rc in
     1) echo "$id CAUGHT rc=1 $sigs" ;;
